@@ -153,3 +153,179 @@ Proof.
   destruct (add_increment d0 _ _ F0 Fseg Hd0 M Rseg E0) as (F1 & Hm & HE).
   split; [exact F0|]. split; [exact F1|]. split; [lra|exact HE].
 Qed.
+
+(* ---------- chaining over the vertices ---------- *)
+
+Section Chain.
+  Variable path : list Pos.
+  Hypothesis Hc : Forall (fun p => coord_le p 20) path.
+  Hypothesis Hs : segs_ok path.
+  Hypothesis Hn : (length path <= 2 ^ 50)%nat.
+  Hypothesis Ht : poly_len (map R2 path) <= pw 1000.
+
+  (* from vertex i to vertex i + n: the straight distance is at most
+     (1 + delta19) times the difference of the computed lengths, plus eta19
+     times the farther length per segment in between *)
+  Lemma chain_vertices : forall n i pi pj li lj,
+    nth_error path i = Some pi -> nth_error path (i + n) = Some pj ->
+    nth_error (natural path D.zero) i = Some li -> nth_error (natural path D.zero) (i + n) = Some lj ->
+    B2R li <= B2R lj /\
+    edist (R2 pi) (R2 pj) <= (1 + delta19) * (B2R lj - B2R li) + INR n * eta19 * B2R lj.
+  Proof.
+    induction n as [|n IH]; intros i pi pj li lj H0 H1 L0 L1.
+    - rewrite Nat.add_0_r in H1, L1. rewrite H0 in H1. rewrite L0 in L1. inversion H1; inversion L1; subst.
+      rewrite edist_refl. cbn [INR]. split; lra.
+    - rewrite Nat.add_succ_r in H1, L1.
+      destruct (nth_error path (i + n)) as [pm|] eqn:Epm;
+        [|exfalso; apply nth_error_None in Epm;
+          assert (X : nth_error path (S (i + n)) = None) by (apply nth_error_None; lia); congruence].
+      destruct (nth_error (natural path D.zero) (i + n)) as [lm|] eqn:Elm;
+        [|exfalso; apply nth_error_None in Elm;
+          assert (X : nth_error (natural path D.zero) (S (i + n)) = None) by (apply nth_error_None; lia); congruence].
+      destruct (IH i pi pm li lm H0 Epm L0 Elm) as (I1 & I2).
+      destruct (chord_le_length_increment_ieee path (i + n) pm pj lm lj Hc Hs Hn Ht Epm H1 Elm L1) as (_ & _ & (C0 & C1) & C2).
+      split; [lra|].
+      eapply Rle_trans; [apply (edist_triangle _ (R2 pm))|].
+      rewrite S_INR. pose proof (pos_INR n) as Pn. pose proof eta19_pos as Pe.
+      assert (Q : INR n * eta19 * B2R lm <= INR n * eta19 * B2R lj).
+      { apply Rmult_le_compat_l; [apply Rmult_le_pos; lra|exact C1]. }
+      lra.
+  Qed.
+End Chain.
+
+(* ---------- exact geometry of one segment ---------- *)
+
+(* the exact interpolated point *)
+Definition interp_P (p0 p1 : Pos) (d0 d1 d : F64) : P2 :=
+  (interp_R (B2R (px p0)) (B2R (px p1)) (B2R d0) (B2R d1) (B2R d),
+   interp_R (B2R (py p0)) (B2R (py p1)) (B2R d0) (B2R d1) (B2R d)).
+
+Lemma interp2_edist x0 y0 x1 y1 d0 d1 a b : d0 < d1 ->
+  edist (interp_R x0 x1 d0 d1 a, interp_R y0 y1 d0 d1 a) (interp_R x0 x1 d0 d1 b, interp_R y0 y1 d0 d1 b)
+  = edist (x0, y0) (x1, y1) * (Rabs (a - b) / (d1 - d0)).
+Proof.
+  intros Hd. assert (HD : 0 < d1 - d0) by lra.
+  assert (k0 : 0 <= Rabs (a - b) / (d1 - d0)).
+  { apply Rmult_le_pos; [apply Rabs_pos|left; apply Rinv_0_lt_compat; exact HD]. }
+  apply edist_eq; [apply Rmult_le_pos; [apply edist_ge0|exact k0]|]. cbn [fst snd].
+  rewrite Rpow_mult_distr, edist_sq. cbn [fst snd].
+  replace ((Rabs (a - b) / (d1 - d0)) ^ 2) with (((b - a) / (d1 - d0)) ^ 2).
+  - rewrite !interp_R_affine by (apply Rgt_not_eq; lra). ring.
+  - unfold Rdiv. rewrite !Rpow_mult_distr, pow2_abs. ring.
+Qed.
+
+Lemma slope_part ch D t G l : 0 < D -> 0 <= t <= D -> 0 <= l -> ch <= G * D + l -> 0 <= G ->
+  ch * (t / D) <= G * t + l.
+Proof.
+  intros HD Ht Hl Hch HG.
+  assert (Hw : 0 <= t / D <= 1).
+  { split.
+    - apply Rmult_le_pos; [lra|left; apply Rinv_0_lt_compat; exact HD].
+    - apply (Rmult_le_reg_r D); [exact HD|]. unfold Rdiv. rewrite Rmult_assoc, Rinv_l by lra. lra. }
+  assert (Et : t = t / D * D) by (field; lra).
+  set (w := t / D) in *.
+  assert (A1 : ch * w <= (G * D + l) * w) by (apply Rmult_le_compat_r; lra).
+  assert (A2 : l * w <= l) by nra.
+  replace (G * t) with (G * D * w) by (rewrite Et at 1; ring). lra.
+Qed.
+
+(* ---------- the global Lipschitz bound ---------- *)
+
+Theorem global_lipschitz_ieee (path : list Pos) i j a b p0 p1 d0 d1 q0 q1 e0 e1 :
+  Forall (fun p => coord_le p 20) path -> segs_ok path -> (length path <= 2 ^ 50)%nat ->
+  poly_len (map R2 path) <= pw 1000 ->
+  (i <= j)%nat ->
+  nth_error path i = Some p0 -> nth_error path (S i) = Some p1 ->
+  nth_error (natural path D.zero) i = Some d0 -> nth_error (natural path D.zero) (S i) = Some d1 ->
+  nth_error path j = Some q0 -> nth_error path (S j) = Some q1 ->
+  nth_error (natural path D.zero) j = Some e0 -> nth_error (natural path D.zero) (S j) = Some e1 ->
+  interp_hyps p0 p1 d0 d1 a -> interp_hyps q0 q1 e0 e1 b ->
+  let Eax := E19 (B2R (px p0)) (B2R (px p1)) in
+  let Eay := E19 (B2R (py p0)) (B2R (py p1)) in
+  let Ebx := E19 (B2R (px q0)) (B2R (px q1)) in
+  let Eby := E19 (B2R (py q0)) (B2R (py q1)) in
+  let G := (1 + delta19) * Rabs (B2R b - B2R a) + INR (j - i + 1) * eta19 * B2R e1 in
+  exists qa qb,
+    interpolate_vertices path (natural path D.zero) (S i) a = Done qa /\
+    interpolate_vertices path (natural path D.zero) (S j) b = Done qb /\
+    Rabs (B2R (px qa) - B2R (px qb)) <= G + Eax + Ebx /\
+    Rabs (B2R (py qa) - B2R (py qb)) <= G + Eay + Eby /\
+    edist (R2 qa) (R2 qb) <= G + (Eax + Eay) + (Ebx + Eby).
+Proof.
+  intros Hc Hs Hn Ht Hij H0 H1 L0 L1 K0 K1 M0 M1 Ha Hb Eax Eay Ebx Eby G.
+  pose proof (interp_hyps_lt _ _ _ _ _ Ha) as Hlta. pose proof (interp_hyps_lt _ _ _ _ _ Hb) as Hltb.
+  destruct (interpolation_ieee_bound path _ i a p0 p1 d0 d1 H0 H1 L0 L1 Ha) as (qa & Hqa & _ & _ & Bax & Bay).
+  destruct (interpolation_ieee_bound path _ j b q0 q1 e0 e1 K0 K1 M0 M1 Hb) as (qb & Hqb & _ & _ & Bbx & Bby).
+  exists qa, qb. split; [exact Hqa|]. split; [exact Hqb|].
+  fold Eax in Bax. fold Eay in Bay. fold Ebx in Bbx. fold Eby in Bby.
+  destruct (chord_le_length_increment_ieee path i p0 p1 d0 d1 Hc Hs Hn Ht H0 H1 L0 L1) as (_ & _ & (Cd0 & Cd1) & Cha).
+  destruct (chord_le_length_increment_ieee path j q0 q1 e0 e1 Hc Hs Hn Ht K0 K1 M0 M1) as (_ & _ & (Ce0 & Ce1) & Chb).
+  destruct Ha as (_ & _ & _ & _ & _ & _ & _ & _ & (Ha0 & Ha1) & _).
+  destruct Hb as (_ & _ & _ & _ & _ & _ & _ & _ & (Hb0 & Hb1) & _).
+  pose proof delta19_pos as Pd. pose proof eta19_pos as Pe.
+  set (Pa := interp_P p0 p1 d0 d1 a). set (Pb := interp_P q0 q1 e0 e1 b).
+  (* the exact points *)
+  assert (Core : edist Pa Pb <= G).
+  { destruct (Nat.eq_dec i j) as [Eij|Nij].
+    - subst j. rewrite K0 in H0. rewrite K1 in H1. rewrite M0 in L0. rewrite M1 in L1.
+      inversion H0; inversion H1; inversion L0; inversion L1; subst.
+      unfold Pa, Pb, interp_P. rewrite (interp2_edist _ _ _ _ _ _ _ _ Hlta). fold (R2 p0) (R2 p1).
+      unfold G. rewrite Nat.sub_diag. cbn [Nat.add INR]. rewrite (Rabs_minus_sym (B2R b)).
+      assert (Tt : 0 <= Rabs (B2R a - B2R b) <= B2R d1 - B2R d0).
+      { split; [apply Rabs_pos|]. apply Rabs_le. lra. }
+      pose proof (slope_part _ (B2R d1 - B2R d0) _ (1 + delta19) (eta19 * B2R d1) ltac:(lra) Tt ltac:(nra) Cha ltac:(lra)).
+      lra.
+    - assert (Hlt : (S i <= j)%nat) by lia.
+      destruct (chain_vertices path Hc Hs Hn Ht (j - S i) (S i) p1 q0 d1 e0 H1
+                  ltac:(replace (S i + (j - S i))%nat with j by lia; exact K0) L1
+                  ltac:(replace (S i + (j - S i))%nat with j by lia; exact M0)) as (Cm & Chm).
+      set (n := (j - S i)%nat) in *.
+      assert (EPa : edist Pa (R2 p1) = edist (R2 p0) (R2 p1) * (Rabs (B2R a - B2R d1) / (B2R d1 - B2R d0))).
+      { unfold Pa, interp_P, R2 at 1.
+        rewrite <- (interp_R_at_d1 (B2R (px p0)) (B2R (px p1)) (B2R d0) (B2R d1)) at 2 by (apply Rgt_not_eq; lra).
+        rewrite <- (interp_R_at_d1 (B2R (py p0)) (B2R (py p1)) (B2R d0) (B2R d1)) at 2 by (apply Rgt_not_eq; lra).
+        apply (interp2_edist _ _ _ _ _ _ _ _ Hlta). }
+      assert (EPb : edist (R2 q0) Pb = edist (R2 q0) (R2 q1) * (Rabs (B2R e0 - B2R b) / (B2R e1 - B2R e0))).
+      { unfold Pb, interp_P, R2 at 1.
+        rewrite <- (interp_R_at_d0 (B2R (px q0)) (B2R (px q1)) (B2R e0) (B2R e1)) at 1 by (apply Rgt_not_eq; lra).
+        rewrite <- (interp_R_at_d0 (B2R (py q0)) (B2R (py q1)) (B2R e0) (B2R e1)) at 1 by (apply Rgt_not_eq; lra).
+        apply (interp2_edist _ _ _ _ _ _ _ _ Hltb). }
+      rewrite (Rabs_left1 (B2R a - B2R d1)) in EPa by lra.
+      rewrite (Rabs_left1 (B2R e0 - B2R b)) in EPb by lra.
+      pose proof (slope_part _ (B2R d1 - B2R d0) (- (B2R a - B2R d1)) (1 + delta19) (eta19 * B2R d1)
+                    ltac:(lra) ltac:(lra) ltac:(nra) Cha ltac:(lra)) as Sa.
+      pose proof (slope_part _ (B2R e1 - B2R e0) (- (B2R e0 - B2R b)) (1 + delta19) (eta19 * B2R e1)
+                    ltac:(lra) ltac:(lra) ltac:(nra) Chb ltac:(lra)) as Sb.
+      rewrite <- EPa in Sa. rewrite <- EPb in Sb.
+      pose proof (edist_triangle Pa (R2 p1) Pb) as T1. pose proof (edist_triangle (R2 p1) (R2 q0) Pb) as T2.
+      unfold G. replace (j - i + 1)%nat with (S (S n)) by (unfold n; lia). rewrite !S_INR.
+      rewrite (Rabs_pos_eq (B2R b - B2R a)) by lra.
+      pose proof (pos_INR n) as Pn.
+      assert (Q1 : INR n * eta19 * B2R e0 <= INR n * eta19 * B2R e1).
+      { apply Rmult_le_compat_l; [apply Rmult_le_pos; lra|lra]. }
+      assert (Q2 : eta19 * B2R d1 <= eta19 * B2R e1) by (apply Rmult_le_compat_l; lra).
+      lra. }
+  assert (Cx : Rabs (fst Pa - fst Pb) <= edist Pa Pb).
+  { pose proof (edist_sq Pa Pb) as Q. pose proof (edist_ge0 Pa Pb) as Q0.
+    apply Rsqr_incr_0_var; [|exact Q0]. rewrite <- Rsqr_abs. unfold Rsqr.
+    pose proof (pow2_ge_0 (snd Pb - snd Pa)). nra. }
+  assert (Cy : Rabs (snd Pa - snd Pb) <= edist Pa Pb).
+  { pose proof (edist_sq Pa Pb) as Q. pose proof (edist_ge0 Pa Pb) as Q0.
+    apply Rsqr_incr_0_var; [|exact Q0]. rewrite <- Rsqr_abs. unfold Rsqr.
+    pose proof (pow2_ge_0 (fst Pb - fst Pa)). nra. }
+  change (interp_R (B2R (px p0)) (B2R (px p1)) (B2R d0) (B2R d1) (B2R a)) with (fst Pa) in Bax.
+  change (interp_R (B2R (py p0)) (B2R (py p1)) (B2R d0) (B2R d1) (B2R a)) with (snd Pa) in Bay.
+  change (interp_R (B2R (px q0)) (B2R (px q1)) (B2R e0) (B2R e1) (B2R b)) with (fst Pb) in Bbx.
+  change (interp_R (B2R (py q0)) (B2R (py q1)) (B2R e0) (B2R e1) (B2R b)) with (snd Pb) in Bby.
+  split; [|split].
+  - replace (B2R (px qa) - B2R (px qb)) with ((B2R (px qa) - fst Pa) + (fst Pa - fst Pb) + - (B2R (px qb) - fst Pb)) by ring.
+    eapply Rle_trans; [apply Rabs_triang|]. eapply Rle_trans; [apply Rplus_le_compat_r, Rabs_triang|].
+    rewrite Rabs_Ropp. lra.
+  - replace (B2R (py qa) - B2R (py qb)) with ((B2R (py qa) - snd Pa) + (snd Pa - snd Pb) + - (B2R (py qb) - snd Pb)) by ring.
+    eapply Rle_trans; [apply Rabs_triang|]. eapply Rle_trans; [apply Rplus_le_compat_r, Rabs_triang|].
+    rewrite Rabs_Ropp. lra.
+  - pose proof (edist_triangle (R2 qa) Pa (R2 qb)) as T1. pose proof (edist_triangle Pa Pb (R2 qb)) as T2.
+    pose proof (edist_le_l1 (R2 qa) Pa) as La. cbn [R2 fst snd] in La.
+    pose proof (edist_le_l1 Pb (R2 qb)) as Lb. cbn [R2 fst snd] in Lb.
+    rewrite (Rabs_minus_sym (fst Pb)), (Rabs_minus_sym (snd Pb)) in Lb. lra.
+Qed.
